@@ -4,8 +4,8 @@
 usage: harmless.py <dir with patch.diff, notes.md> <id> [max_checks]
 Applies the patch to a scratch copy of /repo under /var/tmp, runs the test
 suite, selects the registered checks whose functions under contract live in
-the touched modules (from the committed evidence files; the fastest
-max_checks of them, default 3) and runs them with --repo <copy> from the
+the touched modules (from the committed evidence files; the max_checks of
+them, default 3, that execute most functions of those modules, ties by speed) and runs them with --repo <copy> from the
 committed snapshot of /verif.  Writes /verif/harmless/<id>/{patch.diff,
 notes.md,meta.json}.  exit 0 = held, 1 = VIOLATION (a false alarm to fix),
 2 = undecided (the code left the verified subset or a contract is out of
@@ -37,8 +37,9 @@ def main():
         fns = [x['function'] for x in d['coverage'].get('functions_under_contract', [])]
         n = sum(1 for f in fns if any(f.startswith(m + '.') for m in mods))
         if n:
-            cand.append((d.get('wall_s', 999), d['property_id'], n))
+            cand.append((-n, d.get('wall_s', 999), d['property_id'], n))
     cand.sort()
+    cand = [c[1:] for c in cand]
     chosen = [c[1] for c in cand[:max_checks]]
     meta = {'id': hid, 'files': files, 'checks_touching_these_modules':
             [c[1] for c in cand], 'checks_run': chosen, 'results': {}}
